@@ -99,7 +99,8 @@ Mutations(b) ==
 MutPlans(n, v) ==
   UNION {{<<OpDecodeAny(1, st[1], m[2], m[1]), OpPrint(1), OpCheck(1), OpEncode(1, "DER"), OpDecode(2, "DER"), OpCompare(1, 2),
            OpFree(1), OpFree(2)>> : m \in Mutations(st[2])} : st \in AllStreams(n, v)}
-CutSample(b) == {c \in {1, Len(b) \div 2, Len(b) - 1} : c >= 1 /\ c < Len(b)}
+CutSample(b) == IF Len(b) <= 48 THEN 1..(Len(b) - 1)
+                ELSE {c \in {1, 2, Len(b) \div 4, Len(b) \div 3, Len(b) \div 2, (2 * Len(b)) \div 3, (3 * Len(b)) \div 4, Len(b) - 2, Len(b) - 1} : c >= 1 /\ c < Len(b)}
 LifePlans(n, v) ==
   UNION {
     (IF st[1] # "UPER" THEN {<<OpStartDecode(1, st[1], st[2]), OpDecodeCall(c), OpFree(1)>> : c \in CutSample(st[2])} ELSE {})
@@ -130,7 +131,7 @@ PlansFor(n, v) ==
 
 \* ValCap > 0 bounds the number of values per type (the heavier plan sets)
 \* (leaf types keep all their boundary values)
-ValuesOf(n) == IF ValCap = 0 \/ ~IsConstructedKind(Resolve(RawEnv, TRef(n)).k) THEN Values(RawEnv, TRef(n), Depth)
+ValuesOf(n) == IF ValCap = 0 \/ Resolve(RawEnv, TRef(n)).k \notin {"SEQUENCE", "SET", "SEQOF", "SETOF"} THEN Values(RawEnv, TRef(n), Depth)
                ELSE Take(Values(RawEnv, TRef(n), Depth), ValCap)
 Init == \E n \in TypeNames : \E v \in ValuesOf(n) : \E p \in PlansFor(n, v) :
           InitSession([ty |-> n, val |-> v, plan |-> p])
